@@ -166,3 +166,18 @@ package repository
 //@ func RepoData.StoreSignedCommit
 //@   modifies mutSeq
 //@   ensures [counted] mutSeq >= old(mutSeq) && (result1 == nil ==> mutSeq > old(mutSeq))
+
+// ---- full-text index (C11) -----------------------------------------------------------------------------------
+// indexedDocs: the ids that have a document in the search index (of the namespace at hand).
+//@ ghost var indexedDocs map[string]bool
+//@ func RepoIndex.GetIndex
+//@   modifies nothing
+//@   ensures result1 == nil ==> result != nil
+//@ ghost var indexOps int
+//@ func Index.IndexOne
+//@   modifies indexedDocs, indexOps
+//@   ensures [indexed] result == nil ==> indexedDocs == update(old(indexedDocs), id, true) && indexOps == old(indexOps) + 1
+//@   ensures [error]   result != nil ==> indexedDocs == old(indexedDocs) && indexOps == old(indexOps)
+//@ func Index.Remove
+//@   modifies indexedDocs
+//@   ensures result == nil ==> indexedDocs == update(old(indexedDocs), id, false)
